@@ -447,6 +447,7 @@ pub fn judge<K: Kind>(h: &History) -> Judged {
     let mut lin: LinearizabilityTester<u8, K::Obj> = LinearizabilityTester::new(init.clone());
     let mut sc: SequentialConsistencyTester<u8, K::Obj> = SequentialConsistencyTester::new(init.clone());
     let mut broken = false;
+    let mut prev: Option<(LinearizabilityTester<u8, K::Obj>, SequentialConsistencyTester<u8, K::Obj>)> = None;
     c.inc(&format!("fault_object_{}", h.fault));
     for (i, e) in h.events.iter().enumerate() {
         let prefix = &h.events[..=i];
@@ -454,6 +455,35 @@ pub fn judge<K: Kind>(h: &History) -> Judged {
         // clone isolation: a clone taken before the event must not change
         let (lin_clone, sc_clone) = (lin.clone(), sc.clone());
         let (lin_before, sc_before) = (format!("{:?}", lin_clone), format!("{:?}", sc_clone));
+        // plain values: every way of copying (clone, clone_from onto a tester in another state: fresh,
+        // invalidated, or one event behind) yields an equal tester that answers alike
+        {
+            let mut targets_lin: Vec<LinearizabilityTester<u8, K::Obj>> = vec![LinearizabilityTester::new(init.clone()), LinearizabilityTester::new(init.clone())];
+            let _ = targets_lin[1].on_return(7u8, K::ret(e.code));
+            let mut targets_sc: Vec<SequentialConsistencyTester<u8, K::Obj>> = vec![SequentialConsistencyTester::new(init.clone()), SequentialConsistencyTester::new(init.clone())];
+            let _ = targets_sc[1].on_return(7u8, K::ret(e.code));
+            if let Some((pl, ps)) = &prev {
+                targets_lin.push(pl.clone());
+                targets_sc.push(ps.clone());
+            }
+            for mut t in targets_lin {
+                t.clone_from(&lin);
+                if format!("{:?}", t) != lin_before || t != lin || t.is_consistent() != lin.is_consistent() || t.serialized_history() != lin.serialized_history() {
+                    v.push(Violation::new("C14", "clone-from:linearizability", format!("before event {}: clone_from produced a tester that differs from its source: {:?} vs {}", i, t, lin_before)));
+                }
+            }
+            for mut t in targets_sc {
+                t.clone_from(&sc);
+                if format!("{:?}", t) != sc_before || t != sc || t.is_consistent() != sc.is_consistent() || t.serialized_history() != sc.serialized_history() {
+                    v.push(Violation::new("C14", "clone-from", format!("before event {}: clone_from produced a tester that differs from its source: {:?} vs {}", i, t, sc_before)));
+                }
+            }
+            if lin_clone != lin || sc_clone != sc || lin_clone.is_consistent() != lin.is_consistent() || sc_clone.is_consistent() != sc.is_consistent() {
+                v.push(Violation::new("C14", "clone-differs", format!("before event {}: a clone differs from its source", i)));
+            }
+            c.inc("clone_from_checked");
+            prev = Some((lin_clone.clone(), sc_clone.clone()));
+        }
         let (rl, rs) = if e.invoke {
             (lin.on_invoke(e.thread, K::op(e.code)).map(|_| ()), sc.on_invoke(e.thread, K::op(e.code)).map(|_| ()))
         } else {
